@@ -262,6 +262,23 @@ def run(ctx):
             ctx.check('GroupedList.group_list#post.state_after_all', 'GroupedList.group_list', ok, dict(history=[('init', 'list', "['a', nan, 'b']"), ('group_list', "['a', nan]", 'nan')]), 'group_list([a, nan], nan) -> %r %r' % (list(g), dict(g.content)))
         except Exception as e:
             ctx.check('GroupedList.group_list#post.state_after_all', 'GroupedList.group_list', False, dict(history=[('group_list', "['a', nan]", 'nan')]), 'raised %s' % e)
+    # a missing-value leader replaced by itself is a no-op; missing-value sentinels of different spelling (nan / None) denote the same value
+    for nan_ in (float('nan'), np.nan):
+        g = GL(['a', nan_, 'b']); g.group('b', nan_)
+        before = (list(map(repr, g)), {repr(k): list(map(repr, v)) for k, v in g.content.items()})
+        w = dict(history=[('init', 'list', "['a', nan, 'b']"), ('group', 'b', 'nan'), ('replace_group_leader', 'nan', 'nan')])
+        try:
+            g.replace_group_leader(nan_, nan_); after = (list(map(repr, g)), {repr(k): list(map(repr, v)) for k, v in g.content.items()})
+            ctx.check('GroupedList.replace_group_leader#post.noop_when_equal', 'GroupedList.replace_group_leader', before == after, w, 'replace_group_leader(nan, nan) changed the object: %r -> %r' % (before, after))
+        except Exception as e:
+            ctx.check('GroupedList.replace_group_leader#post.noop_when_equal', 'GroupedList.replace_group_leader', False, w, 'replace_group_leader(nan, nan) raised %s' % e)
+        for held, asked in ((nan_, None), (None, nan_), (nan_, float('nan')), (None, None)):
+            g = GL(['a', held, 'b']); g.group('b', held); w = dict(history=[('init', 'list', "['a', %r, 'b']" % (held,)), ('group', 'b', repr(held)), ('observe', repr(asked))])
+            try:
+                lead = g.get_group(asked); ok = bool(g.contains(asked)) and (lead is held or (lead != lead and held != held) or (lead is None and held is None))
+                ctx.check('GroupedList.get_group#post.agrees_with_content', 'GroupedList.get_group', ok, w, 'list holds the missing value %r: contains(%r) = %r, get_group(%r) = %r' % (held, asked, g.contains(asked), asked, lead))
+            except Exception as e:
+                ctx.check('GroupedList.get_group#post.agrees_with_content', 'GroupedList.get_group', False, w, 'raised %s' % e)
     if ctx.thorough():
         for n in range(3000):
             init = ctx.rng.choice(inits); g, m = build(init); hist = [('init',) + init]
